@@ -31,5 +31,5 @@ LEVEL_TEXT = ("Lean theorems over the C20 machine extended with BehaviorSubject.
               "every reachable configuration `value` is the last accepted on_next value or the initial value; a subscriber arriving while the subject is "
               "live (also from inside a callback, mid-delivery) is first handed exactly that value and is a member from then on; broadcasts behave as in "
               "C20; late subscribers get only the accepted terminal. Unbounded histories and reaction scripts (induction over reachability); polymorphic "
-              "in the value type. Tied to the real code by differential execution and an independent property-text oracle.")
-LEVEL_NOTE = base.LEVEL_NOTE
+              "in the value type, with an explicit naturality theorem (any renaming of values and of the initial value commutes with whole runs). Tied to the real code by differential execution and an independent property-text oracle.")
+LEVEL_NOTE = ('Stated per step (subscription, delivery-loop turn) plus invariants over all reachable configurations, not as one closed formula for a whole history. Error broadcasts reaching an observer without on_error handler (default_error raises into the emitter, the rest of the loop is skipped) are modelled and compared but treated as outside the quantifier of the property by the oracle. Re-entrant emission from callbacks and thread interleavings are not modelled (single-threaded histories, as the property quantifies). User conventions: one subscription per observer id; reaction actions wrapped in try/except. len(subject.observers) is compared with the model only.')
